@@ -35,6 +35,13 @@ def gen(tier, seed):
         specs.append((end + ":" + p.__name__, feat, src, [], full))
         if end == "quit":
             specs.append(("fresh:" + p.__name__, feat, src, [], []))
+    for p in dbggen.PROGRAMS:
+        for r0 in (0, 1):
+            src, feat = p(random.Random(3))
+            pre = [("move", ("reg", 0), 0)] if r0 else []
+            for body in ([("continue",)], [("stepinto", 9)], [("eval", "str r7 r0 #-1")], [("eval", "str r7 r0 #-1"), ("continue",)]):
+                specs.append(("run-reset:" + p.__name__, feat, src, [], pre + body + [("reset",), ("registers",), ("print", ("mem", ("addr", 0xFFFF))), ("exit",)]))
+                specs.append(("run-reset-reset:" + p.__name__, feat, src, [], pre + body + [("reset",)] + body + [("reset",), ("reset",), ("exit",)]))
     return rnd, specs, fresh
 
 
